@@ -62,8 +62,16 @@ def run(prog, rep):
                     continue
                 n_add += 1
                 obj = ev["obj"]
-                if f.name == "_reorder" and obj == me:
-                    rep.ok("DOM-3", "%s: re-insert of self into its own list" % f.short, "same object, multiset of names unchanged", where(f, node.ast))
+                # moving an object inside the list it is already in: a completed <list>.index(<object>) on the same list and the same
+                # object dominates the add (index raises for a non member), so the multiset of names cannot change
+                ltxt0 = norm_text(ev["listexpr"]) if "listexpr" in ev else me
+                member = [m for m in g.nodes if m.id != node.id and g.dominates(m, node)
+                          and any(isinstance(c0.func, ast.Attribute) and c0.func.attr == "index" and len(c0.args) == 1
+                                  and norm_text(an.alias_expander(f).expand(c0.func.value, m)) == ltxt0
+                                  and norm_text(an.alias_expander(f).expand(c0.args[0], m)) == obj
+                                  for r0 in m.expr_roots() for c0 in calls_in(r0))]
+                if member:
+                    rep.ok("DOM-3", "%s: re-insert of a member into its own list" % f.short, "dominated by %s.index(%s)" % (ltxt0, obj), where(f, node.ast))
                     continue
                 if ev["kind"] == "ADD_RAW" and ev.get("how") in ("extend", "__iadd__", "+="):
                     rep.fail("DOM-3", "%s|bulk-add" % f.short, "bulk add `%s` to a child list without per element name test" % unparse(node.ast)[:60],
@@ -361,6 +369,12 @@ def _id_cases(value, atoms=()):
     if isinstance(value, ast.IfExp):
         return _id_cases(value.body, tuple(atoms) + tuple(atoms_of(value.test, True))) + \
             _id_cases(value.orelse, tuple(atoms) + tuple(atoms_of(value.test, False)))
+    if isinstance(value, ast.Call) and unparse(value.func) == "str" and len(value.args) == 1 and not value.keywords \
+            and isinstance(value.args[0], ast.IfExp):
+        # str(a if t else b) is str(a) if t else str(b)
+        inner = value.args[0]
+        wrap = lambda e: ast.Call(func=value.func, args=[e], keywords=[])
+        return _id_cases(ast.IfExp(test=inner.test, body=wrap(inner.body), orelse=wrap(inner.orelse)), atoms)
     return [(_id_shape(value), tuple(atoms))]
 
 
